@@ -182,10 +182,9 @@ Proof.
     cbn in H.
     destruct shs as [|s1 [|s2 shs]], tys as [|t1 [|t2 tys]]; simpl in HL; try discriminate;
       cbn in H; try discriminate.
-    + destruct s1; cbn in H; try discriminate. inv H. apply S_present.
-    + destruct s1; cbn in H; try discriminate.
-      destruct s2; cbn in H; try discriminate;
-      destruct (first_bad_arg (ARef false) shs tys 2); discriminate.
+    + destruct s1; cbn in H; try discriminate; inv H; apply S_present; discriminate.
+    + destruct s1; cbn in H; try discriminate;
+        destruct s2; cbn in H; try discriminate; fb_kill H.
   (* $upper_bound $lower_bound *)
   - cbn in H;
     destruct shs as [|s1 [|s2 shs]], tys as [|t1 [|t2 tys]]; simpl in HL; try discriminate;
@@ -216,7 +215,7 @@ Proof.
     assert (FB : first_bad_arg (AKind KInt) shs tys 0 = None).
     { apply first_bad_none_kind; [assumption| apply Forall_eq_int_kind; assumption]. }
     rewrite FB. destruct tys; [congruence|]. reflexivity.
-  - reflexivity.
+  - destruct s; try congruence; reflexivity.
   - destruct f; try discriminate; reflexivity.
 Qed.
 
@@ -230,7 +229,7 @@ Lemma op_check_impl_sound f shs tys t :
 Proof.
   intros HL H.
   destruct f.
-  1-5, 10-13, 15-16: left; apply op_check_doc_sound; [assumption | exact H].
+  1-5, 10-16: left; apply op_check_doc_sound; [assumption | exact H].
   (* < <= > >= *)
   1-4: unfold op_check in H; cbn [is_cmp is_eq is_ord orb fn_eqb] in H;
     destruct tys as [|a [|b [|c tys]]]; try discriminate;
@@ -239,12 +238,6 @@ Proof.
     [ inv H; left; apply S_ord; reflexivity
     | destruct (N.eqb e e0) eqn:E; cbn in H; try discriminate;
       apply N.eqb_eq in E; subst; inv H; right; apply Q_ord_enum; reflexivity ].
-  (* $present *)
-  unfold op_check in H. cbn in H.
-  destruct shs as [|s1 [|s2 shs]], tys as [|t1 [|t2 tys]]; simpl in HL; try discriminate;
-    cbn in H; try discriminate.
-  - destruct s1; cbn in H; try discriminate; inv H; [left; apply S_present | right; apply Q_present_param].
-  - destruct s1; cbn in H; try discriminate; destruct s2; cbn in H; try discriminate; fb_kill H.
 Qed.
 
 Lemma op_check_impl_of_sig f shs tys t :
@@ -263,7 +256,7 @@ Proof.
     assert (FB : first_bad_arg (AKind KInt) shs tys 0 = None).
     { apply first_bad_none_kind; [assumption| apply Forall_eq_int_kind; assumption]. }
     rewrite FB. destruct tys; [congruence|]. reflexivity.
-  - reflexivity.
+  - destruct s; try congruence; reflexivity.
   - destruct f; try discriminate; reflexivity.
 Qed.
 
@@ -271,8 +264,7 @@ Lemma op_check_impl_of_quirk f shs tys t :
   op_quirk f shs tys t -> op_check impl_table f shs tys = TOk t.
 Proof.
   intros H. destruct H.
-  - destruct f; try discriminate; cbn; rewrite N.eqb_refl; reflexivity.
-  - reflexivity.
+  destruct f; try discriminate; cbn; rewrite N.eqb_refl; reflexivity.
 Qed.
 
 Lemma op_check_impl_iff f shs tys t :
@@ -319,14 +311,12 @@ Proof.
     simpl in HGa. apply andb_true_iff in HGa. destruct HGa. constructor; auto. }
   apply op_check_impl_sound in H; [|rewrite map_length; eapply Forall2_length'; eauto].
   destruct H as [H|H]; [econstructor; eassumption|exfalso].
-  apply negb_true_iff in HGq. unfold quirk_node in HGq. apply orb_false_iff in HGq.
-  destruct HGq as [Q1 Q2].
+  apply negb_true_iff in HGq. unfold quirk_node in HGq. rename HGq into Q1.
   inversion H; subst.
-  - destruct args as [|a1 [|a2 [|a3 args]]]; try discriminate.
-    inversion C as [|? ? ? ? C1 C']; subst. inversion C' as [|? ? ? ? C2 C'']; subst.
-    simpl in Q1. rewrite C1, C2, H2 in Q1. discriminate.
-  - destruct args as [|a1 [|a2 args]]; try discriminate.
-    destruct a1; try discriminate.
+  destruct args as [|a1 [|a2 [|a3 args]]]; try discriminate.
+  inversion C as [|? ? ? ? C1 C']; subst. inversion C' as [|? ? ? ? C2 C'']; subst.
+  simpl in Q1. rewrite C1, C2 in Q1.
+  match goal with K : is_ord f = true |- _ => rewrite K in Q1 end. discriminate.
 Qed.
 
 Lemma guard_doc_agree G e t :
@@ -338,7 +328,6 @@ Qed.
 (* witnesses: the unguarded equivalence is false of the faithful table *)
 Definition G0 : tenv := mk_tenv (fun _ => TInt) (fun _ => TInt).
 Definition wit_enum_ordering : texpr := XFn FLt [XEnum 0 1; XEnum 0 1].
-Definition wit_present_param : texpr := XFn FPresent [XParam 0].
 
 Lemma not_has_type_by_doc G e t : typecheck doc_table G e <> TOk t -> ~ has_type G e t.
 Proof. intros H1 H2. apply H1. apply typecheck_doc_iff_lem. assumption. Qed.
@@ -350,12 +339,6 @@ Proof.
   apply not_has_type_by_doc. vm_compute. discriminate.
 Qed.
 
-Lemma present_param_refuted_lem :
-  exists G e t, typecheck impl_table G e = TOk t /\ ~ has_type G e t /\ teval (mk_venv (fun _ => VInt 0) (fun _ => VInt 0) (fun _ => true) (fun _ => 0%Z) (fun _ => 0%Z)) e = None.
-Proof.
-  exists G0, wit_present_param, TBool. split; [reflexivity|]. split; [|reflexivity].
-  apply not_has_type_by_doc. vm_compute. discriminate.
-Qed.
 
 (* ---------- error sites ---------- *)
 Lemma first_bad_lt r shs tys : forall i j, first_bad_arg r shs tys i = Some j -> i <= j < i + length shs.
@@ -485,8 +468,9 @@ Proof.
   destruct HV as (vs & Es & Ts).
   destruct (fn_eqb f FPresent) eqn:EP.
   - destruct f; try discriminate. inversion HS; subst; try discriminate.
-    destruct args as [|a [|a2 args]]; try discriminate. destruct a; try discriminate.
-    simpl. eexists; split; reflexivity.
+    destruct args as [|a [|a2 args]]; try discriminate.
+    match goal with K : [?s0] = map shape_of [a] |- _ => simpl in K; inversion K; subst s0 end.
+    destruct a; simpl in *; try congruence; eexists; split; reflexivity.
   - assert (f <> FPresent) by (intros ->; discriminate).
     destruct (op_eval_ok r f args vs tys t HS Ts H0) as (v & Ev & Tv).
     exists v. split; [|assumption].
